@@ -49,6 +49,7 @@ type Result struct {
 	Stage               string // where the run ended: parse|eval|event:<n>
 	TypeMon             string // first run-time type mismatch seen by the monitor inside eval (kind|static type|what the value is|where)
 	TypeMonChecks       int64
+	StopMon             string // first node that was evaluated to the end although the stop flag was up when it was entered
 }
 
 // Trace renders the effect trace plus terminal line.
@@ -231,8 +232,10 @@ func RunL1(sc *Scenario, o L1Opts) *Result {
 
 	evaluator.SimTypeMonOn = true
 	evaluator.SimTypeMonTake()
+	evaluator.SimStopMonTake()
 	checks0 := evaluator.SimTypeMonChecks
 	defer func() {
+		res.StopMon = evaluator.SimStopMonTake()
 		res.TypeMon = evaluator.SimTypeMonTake()
 		res.TypeMonChecks = evaluator.SimTypeMonChecks - checks0
 	}()
